@@ -51,7 +51,7 @@ def scaleCol (n j : Nat) (scale : K) : Nat → Array K → Array K
     let a' := scaleCol n j scale m a
     set a' n (j + 1 + m) j (get a' n (j + 1 + m) j * scale)
 
-/-- row_scale[i] = max_j |a[i][j]| -/
+/-- row_scale[i] = 1 / max_j |a[i][j]| (0 for a zero row) -/
 def rowScales (mag : K → Float) (a : Array K) (n : Nat) : Array Float := Id.run do
   let mut rowScale : Array Float := Array.replicate n 0.0
   for i in [0:n] do
@@ -59,7 +59,7 @@ def rowScales (mag : K → Float) (a : Array K) (n : Nat) : Array Float := Id.ru
     for j in [0:n] do
       let t := mag (get a n i j)
       if t > mx then mx := t
-    rowScale := rowScale.set! i mx
+    rowScale := rowScale.set! i (if mx != 0.0 then 1.0 / mx else 0.0)
   return rowScale
 
 structure LUState (K : Type) where
